@@ -256,7 +256,7 @@ func report(prop, tier string, seed int, ip *InvProp, res *checkResult, partial 
 	total, discharged, covers, coversOK := 0, 0, 0, 0
 	var funcs []evFunc
 	var samples []string
-	var undis []string
+	undis := []string{}
 	var kfLines []string
 	trusted := map[string]bool{}
 	notes := map[string]bool{}
